@@ -288,6 +288,7 @@ func C11(c *Ctx) {
 
 	c.anchoredRegexpRule("C11-8", "parser.reGoBuildGen", "parser.reNotation")
 	c.docDetachRule("C11-9")
+	c.positive("C11-9", "detach-without-test", func(pc *Ctx) { pc.docDetachRule("C11-9") }, []string{"util.Detach"}, nil)
 	c.patternWitnessRule("C11-10")
 	c.lineSubjectRule("C11-11")
 
